@@ -29,3 +29,11 @@ func VerifWrapExecutedStore(wrap func(db.Database) db.Database) {
 		p.executed = wrap(p.executed)
 	}
 }
+
+// VerifPoolTick runs one ageing pass over the pending transactions, as the
+// container's one-minute ticker does.
+func VerifPoolTick() {
+	if p, ok := GetTransactionPool().(*TxPool); ok && p != nil {
+		p.received.growRing()
+	}
+}
